@@ -596,6 +596,12 @@ func (t *Table) UpdateChain(chain *generictables.Chain) {
 		if oldChain.ForceProgramming {
 			t.logCxt.WithField("chainName", chain.Name).Debug("Old chain has force programming flag, decref.")
 			t.decrefChain(chain.Name)
+			if !t.chainIsReferenced(chain.Name) {
+				// The force programming flag was the chain's only reference.  decrefChain() released the
+				// references held by the old rules; also release the ones taken for the new rules above,
+				// otherwise the chains they refer to stay programmed forever.
+				t.decrefReferredChains(chain.Rules)
+			}
 		}
 		t.maybeDecrefReferredChains(chain.Name, oldChain.Rules)
 	}
@@ -668,6 +674,11 @@ func (t *Table) maybeDecrefReferredChains(chainName string, rules []generictable
 	if !t.chainIsReferenced(chainName) {
 		return
 	}
+	t.decrefReferredChains(rules)
+}
+
+// decrefReferredChains decrefs all chains that the given rules refer to.
+func (t *Table) decrefReferredChains(rules []generictables.Rule) {
 	for _, r := range rules {
 		if ref, ok := r.Action.(Referrer); ok {
 			t.decrefChain(ref.ReferencedChain())
